@@ -302,6 +302,12 @@ def sweep_chars(rng, full):
             if cur != prev:
                 cps.update((c - 1, c, c + 1))
                 prev = cur
+    # characters whose case mappings leave their script: non-ASCII with an ASCII or multi-character lower / upper / folded form
+    for c in range(0x80, 0x30000):
+        ch = chr(c)
+        for f in (ch.lower(), ch.upper(), ch.casefold()):
+            if f != ch and (len(f) > 1 or ord(f) < 0x80):
+                cps.add(c)
     cps.update(rng.randrange(0x110000) for _ in range(3000))
     return [chr(c) for c in sorted(cps) if 0 <= c < 0x110000 and not (0xD800 <= c <= 0xDFFF)]
 
@@ -406,10 +412,43 @@ def char_sweeps(ctx, full=False):
         want_f = [ord(x.fine_class(ch)) for _, ch in alnums]
         got_f = [fine[i] for i, _ in alnums]
         if got_f != want_f:
-            ctx.mismatch('fine-classification', {'extras': extras}, 'fine_class', 'Extractor.fine_class')
+            badf = [ch for (_, ch), g, w in zip(alnums, got_f, want_f) if g != w]
+            ctx.mismatch('fine-classification', {'extras': extras, 'first_bad_code_points': [hex(ord(c)) for c in badf[:8]]},
+                         'fine_class', 'Extractor.fine_class')
+            search_around_chars(ctx, badf[:6], extras)
+        if list(coarse) != want_c:
+            search_around_chars(ctx, [ch for ch, g, w in zip(chars, coarse, want_c) if g != w][:6], extras)
         n += 2 * len(chars)
     ctx.cov['evaluations'] += n
     ctx.extra['char_sweep'] = {'code_points': len(chars), 'full': full, 'comparisons': n}
+
+
+def search_around_chars(ctx, bad_chars, extras):
+    """The correspondence on character classification broke at these code points: search for examples around them that the
+    returned expressions no longer cover (a concrete failing input for the coverage property)."""
+    for c in bad_chars:
+        fams = [[c + w for w in ('zmir', 'negol', 'skenderun')], ['ab' + c, 'cd' + c, 'efg' + c], [c, c + c, c + c + c],
+                ['A' + c + '1', 'B' + c + '22', 'C' + c + '333'], [c + 'A', c + 'B'], ['x' + c + 'y', 'p' + c + 'q'],
+                [c + '-1', c + '-22'], [c.lower() + 'a' if c.lower() != c else c + 'b', c + 'c']]
+        for ex in fams:
+            for dialect in (None, 'portable'):
+                for vl in (False, True):
+                    try:
+                        kw = dict(extra_letters=extras or None, variableLengthFrags=vl)
+                        if dialect:
+                            kw['dialect'] = dialect
+                        res = rx.extract(list(ex), **kw)
+                    except Exception as e:
+                        ctx.fail({'examples': ex, 'extra_letters': extras, 'dialect': dialect, 'variableLengthFrags': vl},
+                                 'extract raised %s: %s' % (type(e).__name__, str(e)[:150]))
+                        continue
+                    comp = [_re.compile(r, rx.RE_FLAGS) for r in res]
+                    missed = [e_ for e_ in ex if not any(r.fullmatch(e_) for r in comp)]
+                    ctx.cov['evaluations'] += 1
+                    if missed:
+                        ctx.fail({'examples': ex, 'extra_letters': extras, 'dialect': dialect, 'variableLengthFrags': vl},
+                                 'example %r is matched by none of the returned expressions %r' % (missed[0], res))
+                        return
 
 
 def escape_sweep(ctx, n=400):
